@@ -14,6 +14,7 @@ import (
 	"sort"
 	"strings"
 	"testing"
+	"unicode"
 
 	"github.com/emersion/go-message/textproto"
 	modconfig "github.com/foxcpp/maddy/framework/config/module"
@@ -456,5 +457,84 @@ func TestVerif_C15(t *testing.T) {
 	sort.Strings(keys)
 	for _, k := range keys {
 		out.Stat(k, stats[k])
+	}
+}
+
+// ---- the normalisation settings against their contract (Auth/NormCorr.v) ----
+
+func vRunes(s string) string {
+	var items []string
+	for _, r := range s {
+		items = append(items, cN(int(r)))
+	}
+	return cList(items)
+}
+
+func vLowRunes(s string) string {
+	var items []string
+	for _, r := range s {
+		items = append(items, cN(int(unicode.ToLower(r))))
+	}
+	return cList(items)
+}
+
+func TestVerif_C15Norm(t *testing.T) {
+	out := vOpenOut()
+	defer out.Close()
+	n := vEnvInt("VERIF_N", 100)
+	// pairs of spellings: the same under lower-casing, or different mailboxes that a coarser
+	// relation (full case folding, compatibility mappings, confusables) would identify
+	pairs := [][2]string{
+		{"strasse", "straße"}, {"STRASSE", "straße"}, {"masse", "maſe"}, {"s", "ſ"},
+		{"odysseusς", "odysseusσ"}, {"Σ", "ς"}, {"fish", "ﬁsh"}, {"off", "oﬀ"},
+		{"kelvin", "Kelvin"}, {"Alice", "alice"}, {"ALICE", "alice"}, {"alice", "alicé"},
+		{"École", "école"}, {"İstanbul", "istanbul"}, {"i̇stanbul", "İstanbul"}, {"Ａlice", "alice"},
+		{"ａlice", "Ａlice"}, {"ТЕСТ", "тест"}, {"bob", "b0b"}, {"ẞ", "ß"},
+		{"ẞ", "ss"}, {"ǅ", "ǆ"}, {"Ǆ", "ǆ"}, {"ω", "Ω"},
+	}
+	domains := []string{"", "@example.org", "@Example.ORG", "@тест.example", "@straße.example", "@strasse.example"}
+	names := []string{"casefold", "noop", "casefold", "auto", "precis_casefold_email", "precis_casefold", "precis_email", "precis", "casefold"}
+	stats := map[string]int{}
+	for ci := 0; ci < n; ci++ {
+		r := vNewRand(uint64(1590000 + ci))
+		name := names[r.intn(len(names))]
+		p := pairs[r.intn(len(pairs))]
+		a, b := p[0], p[1]
+		switch r.intn(4) {
+		case 0: // the difference sits in the domain
+			l := vLocal[r.intn(len(vLocal))]
+			a, b = l+"@"+a+".example", l+"@"+b+".example"
+		case 1:
+			d := domains[r.intn(len(domains))]
+			a, b = a+d, b+d
+		case 2:
+			a, b = a+domains[r.intn(len(domains))], b+domains[r.intn(len(domains))]
+		}
+		if r.chance(10) {
+			b = a
+		}
+		f := authz.NormalizeFuncs[name]
+		if f == nil {
+			t.Fatalf("no normalization function %q", name)
+		}
+		side := func(s string) string {
+			o := "None"
+			if v, err := f(s); err == nil {
+				o = "Some " + vRunes(v)
+			}
+			return fmt.Sprintf("{| s_in := %s; s_low := %s; s_out := %s |}", vRunes(s), vLowRunes(s), o)
+		}
+		st := "SOther"
+		switch name {
+		case "noop":
+			st = "SNoop"
+		case "casefold":
+			st = "SCasefold"
+		}
+		out.Case(fmt.Sprintf("{| n_set := %s; n_a := %s; n_b := %s |}", st, side(a), side(b)))
+		stats["setting_"+name]++
+	}
+	for k, v := range stats {
+		out.Stat(k, v)
 	}
 }
